@@ -9,7 +9,8 @@ TRUSTED = ['SipHash collisions are outside the model']
 
 SPELL = [b'1', b'1.0', b'1e0', b'10e-1', b'2', b'2.50', b'2.5', b'"a"', b'"\\u0061"', '"é"'.encode('utf8'), b'"\\u00e9"', b'null', b'true', b'[1,2]', b'[1.0, 2]', b'[]',
          b'{"a":1}', b'{"a":1.0}', b'{"a":1,"b":[2]}', b'{"a": 1, "b": [2.0]}', b'""', b'[[]]', b'0', b'0.0', b'0e0', b'[0]', b'[0.0]', b'{"a":{"b":1}}', b'{"a":{},"b":1}', b'{"a":{"b":{"c":2}}}', b'{"a":{"b":{}},"c":2}', b'{"a":{"b":{},"c":2}}', b'[[1],[2]]', b'[[1,2]]', b'["ab"]', b'["a","b"]', b'{"k":"x","a":1}', b'{"k":"x","a":1e0}', b'-0', b'-0.0', b'-0e0', b'[-0]', b'{"a":-0}', b'{"a":0}',
-         b'{"a":1,"b":[2]}', b'{"b":[2],"a":1}', b'{"a":{"x":1,"y":[{"p":1,"q":2}]},"b":2}', b'{"b":2.0,"a":{"y":[{"q":2,"p":1}],"x":1}}', b'[{"k":"x","a":1}]', b'[{"a":1,"k":"x"}]']
+         b'{"a":1,"b":[2]}', b'{"b":[2],"a":1}', b'{"a":{"x":1,"y":[{"p":1,"q":2}]},"b":2}', b'{"b":2.0,"a":{"y":[{"q":2,"p":1}],"x":1}}', b'[{"k":"x","a":1}]', b'[{"a":1,"k":"x"}]',
+         b'1e15', b'1000000000000000', b'1.0e15', b'9007199254740991', b'9007199254740991.0', b'9.007199254740991e15', b'1e18', b'1000000000000000000', b'123456789012345680', b'1.2345678901234568e17', b'-1e15', b'-1000000000000000', b'[1e16]', b'[10000000000000000]']
 
 def run(ctx):
     rnd = ctx['rnd']; n = 300 if ctx['tier'] == 'quick' else 12000
